@@ -8,6 +8,8 @@ FILE = "antismash/main.py"
 abspath = Uninterpreted("abspath", [Str], Str)
 is_dir = Uninterpreted("is_dir", [Str], Bool)
 exists_ = Uninterpreted("path_exists", [Str], Bool)
+basename = Uninterpreted("basename", [Str], Str)
+realpath = Uninterpreted("realpath", [Str], Str)
 
 
 @contract(f"{FILE}::_ignore_patterns", props=["C20"])
@@ -23,6 +25,8 @@ class IgnorePatterns:
         "os.path.isdir": is_dir,
         "os.path.exists": exists_,
         "os.path.abspath": abspath,
+        "os.path.basename": basename,
+        "os.path.realpath": realpath,
     }
     ensures = {
         "counts-as-other-file-unless-input-directory-or-logfile": lambda entry, logfile, result:
